@@ -468,6 +468,13 @@ func (s *Server) attachClient(cl *Client, listener string) error {
 	}
 
 	verifAt("attach.willCancel", cl)
+	if lwt, ok := s.loop.willDelayed.Get(cl.ID); ok && !sessionPresent {
+		s.publishToSubscribers(lwt) // the previous session has ended before its will delay passed, so the will is due now [MQTT-3.1.2-8]
+		if lwt.FixedHeader.Retain {
+			s.retainMessage(cl, lwt)
+		}
+		s.hooks.OnWillSent(cl, lwt)
+	}
 	s.loop.willDelayed.Delete(cl.ID) // [MQTT-3.1.3-9]
 
 	if sessionPresent {
